@@ -28,6 +28,8 @@ type C15Case struct {
 	EndStep       int    `json:"end_step"`                 // index of the peer Logout / local Logout / Stop step
 	AnswerStep    int    `json:"answer_step"`              // index of the peer's answering Logout (-1: none)
 	DamagedFirst  bool   `json:"damaged_first,omitempty"`  // peer-logout ending: a damaged Logout precedes the intact one
+	SecondLogon   int    `json:"second_logon,omitempty"`   // peer-logout ending on an acceptor: step of a second Logon on the same connection (0: none) ...
+	SecondLogout  int    `json:"second_logout,omitempty"`  // ... and of the peer\'s second Logout
 	RefuseResends bool   `json:"refuse_resends,omitempty"` // an application outgoing handler refuses every message it is offered a second time (a retransmission); a ResendRequest 1..0 precedes the ending
 	RefuseLogout  bool   `json:"refuse_logout,omitempty"`  // stop ending: an application outgoing handler refuses the Logout, so it never reaches the peer; the deadline still ends the session
 	CounterFails  bool   `json:"counter_fails,omitempty"`  // peer-logout ending: the counter store fails from just before the peer's Logout on; the Logout is answered all the same
@@ -98,6 +100,11 @@ func genC15(t *rapid.T) *C15Case {
 			add(rig.Step{Op: "counter-fails"})
 		}
 		c.EndStep = add(rig.Step{Op: "in", In: g.logout()})
+		if cfg.Role == "acceptor" && !c.CounterFails && rapid.IntRange(0, 2).Draw(t, "secondRound") == 0 {
+			// the same connection is used for a second round: the peer logs on again and out again
+			c.SecondLogon = add(rig.Step{Op: "in", In: g.goodLogon(g.hb)})
+			c.SecondLogout = add(rig.Step{Op: "in", In: g.logout()})
+		}
 	case "local-logout":
 		probeFirst()
 		c.EndStep = add(rig.Step{Op: "logout"})
@@ -272,6 +279,15 @@ func checkC15(c *C15Case, rec *evid.Rec) (vs []pbt.Violation) {
 		}
 		if end.Logged {
 			vs = append(vs, pbt.V("still-logged-after-logout", "IsLogged is still true after the peer's Logout was acknowledged"))
+		}
+		if c.SecondLogon > 0 && len(vs) == 0 {
+			rec.Hist("second-round-on-the-connection")
+			lg, lo := tr.Steps[c.SecondLogon], tr.Steps[c.SecondLogout]
+			if !lg.Logged {
+				vs = append(vs, pbt.V("second-round:logon-not-accepted", "after the logout exchange a further acceptable Logon on the same connection does not log the session on; it produced:%s", showOut(lg)))
+			} else if n := logouts(lo.Out); n != 1 || lo.Logged {
+				vs = append(vs, pbt.V("second-round:logout-reply-count", "second round on the connection: the peer's Logout must be answered by exactly one Logout and end the logon (IsLogged %v), emitted:%s", lo.Logged, showOut(lo)))
+			}
 		}
 	case "local-logout":
 		if n := logouts(end.Out); n != 1 {
